@@ -62,7 +62,7 @@ func c06Sizes(tier fw.Tier) []int {
 // rarely get past the parser): record dates relative to the clock (today, yesterday, long ago), should-totals that
 // make the forecast end time representable / not representable, entry values much wider or narrower than the
 // record total, negative and zero totals, open ranges that can / cannot be closed.
-var c06EvEntries = []string{"1m", "-30m", "8:00 - 9:30", "100h", "<23:00 - 1:00>", "8:00 - ? #x", "-100h59m", "0m"}
+var c06EvEntries = []string{"1m", "-30m", "8:00 - 9:30", "100h", "<23:00 - 1:00>", "8:00 - ? #x", "-100h59m", "0m", "8:00 - 8:00"}
 var c06EvShould = []string{"", " (8h!)", " (100h!)", " (-1h!)"}
 var c06EvDates = []string{"2022-06-15", "2022-06-14", "2022/01/01"} // fixedNow is 2022-06-15 12:00
 
@@ -138,6 +138,8 @@ var c06HandCases = []string{
 	"2020-01-01\n\t中中中\tfoo\r\n\tx\n",
 	"2020-01-01\n    日本語日本語日本語\t\x01\x7f 1h\n",
 	"2020-01-01 ünï中文\t(8h!\n",
+	// long tag values in multi-byte scripts (a table cell may be shortened: by characters or by bytes?)
+	"2020-01-03\n    1h #проект=\"Разработка нового сайта для клиента\" #x='日本語の長い値がここにあります、まだ続きます'\n    2h #проект=\"Разработка нового сайта для клиента и ещё немного текста, чтобы было длиннее\"\n",
 	// very short files that begin like a byte-order mark, and a complete one
 	"\xef", "\xef\xbb", "\xef\xbb\xbf", "\xef\xbb\xbf2020-01-01\n", "\xfe\xff", "\xff\xfe2\x000\x00",
 	// a faulty line far longer than a terminal line, with the fault far to the right
